@@ -16,7 +16,7 @@ from vf.model import execute as X, validate as V
 PROPERTY = "C18"
 LEVEL = "model_checking"
 ASSUMPTIONS = ["which strings are syntax errors is decided by the parser stand-in (DC12)"]
-BUDGET_S = {"quick": 120, "thorough": 1800}
+BUDGET_S = {"quick": 600, "thorough": 1800}
 
 SDL = """
 directive @rej on ARGUMENT_DEFINITION | INPUT_FIELD_DEFINITION | FIELD_DEFINITION | FIELD
